@@ -138,43 +138,22 @@ def tab_v(ctx):
     R.floor("TAB-V", 30)
 
 
-def map_locals(F, body):
-    """Locals of read_fibexes holding one of the three result maps: {local: short name}."""
-    out = {}
-    for i, l in enumerate(body["locals"]):
-        s = F.ty_s(l["ty"])
-        if s.startswith("std::collections::HashMap<") and ("PduMetadata" in s or "FrameMetadata" in s) and l.get("user"):
-            out[i] = s
-    return out
+def fibex_bodies(F):
+    return [(p, b) for p, b in sorted(F.bodies.items()) if p.startswith("fibex::") and not b["derived"] and "::tests::" not in p]
+
+
+def is_result_map_ty(F, ti):
+    s = F.ty_s(ti)
+    return "HashMap<" in s and ("PduMetadata" in s or "FrameMetadata" in s)
 
 
 def first_wins(ctx):
-    F, R = ctx.facts, ctx.report
-    b = F.body(READ)
-    maps = map_locals(F, b)
-    if len(maps) != 3:
-        R.violation("FIRST", READ + "|maps", "expected the three result maps (PDUs by id, frames by id, frames by key) as locals of read_fibexes, found %d: %s" % (len(maps), sorted(maps.values())), function=READ, kind="UNRECOGNISED-SHAPE")
-        return
-    # temps that are references to a map local
-    refs = {}
-    for blk in b["blocks"]:
-        for s in blk["stmts"]:
-            if s["k"] == "assign" and not s["p"]["p"] and s["rv"]["k"] in ("ref", "rawptr") and s["rv"]["p"]["l"] in maps and not s["rv"]["p"]["p"]:
-                refs[s["p"]["l"]] = s["rv"]["p"]["l"]
-    loops = cfg.natural_loops(b)
-    file_loop = None
-    for lp in loops:
-        for bi in lp["blocks"]:
-            f = cfg.callee_of(b["blocks"][bi]["term"])
-            if f and f["path"].endswith("::from_file"):
-                if file_loop is None or len(lp["blocks"]) > len(file_loop["blocks"]):
-                    file_loop = lp
-    if file_loop is None:
-        R.violation("FIRST", READ + "|file-loop", "cannot identify the loop over the input files", function=READ, kind="UNRECOGNISED-SHAPE")
-        return
+    """Type-based: any write-capable HashMap method whose map type is one of the three result maps, anywhere in the
+    module, must be entry(); the entry() calls are not executed inside the loop over the input files."""
+    F, R, cg = ctx.facts, ctx.report, ctx.cg
     n_entry = 0
-    bodies = [(READ, b)] + [(p, F.body(p)) for p in F.bodies if p.startswith(READ + "::{closure")]
-    for path, body in bodies:
+    entry_fns = set()
+    for path, body in fibex_bodies(F):
         for bi, blk in enumerate(body["blocks"]):
             if blk["cleanup"]:
                 continue
@@ -183,133 +162,138 @@ def first_wins(ctx):
             if not f:
                 continue
             tgt = cfg.fn_target(f)
+            tys = [a for a in f.get("args", []) if isinstance(a, int)]
+            sty = f.get("self_ty")
+            touches = (sty is not None and is_result_map_ty(F, sty)) or ("HashMap" in tgt and any(("PduMetadata" in F.ty_s(a) or "FrameMetadata" in F.ty_s(a)) for a in tys)) or (("Entry" in tgt) and any(("PduMetadata" in F.ty_s(a) or "FrameMetadata" in F.ty_s(a)) for a in tys))
+            if not touches:
+                continue
             fl, ln = loc_of(blk)
-            on_map = None
-            if body is b and t["args"]:
-                p0 = t["args"][0].get("c") or t["args"][0].get("m")
-                if p0 is not None and not p0["p"]:
-                    on_map = refs.get(p0["l"]) if p0["l"] in refs else (p0["l"] if p0["l"] in maps else None)
             if MAP_DENY.search(tgt) or MAP_DENY.search(f["path"]):
-                sty = F.ty_s(f["self_ty"]) if f.get("self_ty") is not None else ""
-                touches = on_map is not None or "PduMetadata" in tgt + sty or "FrameMetadata" in tgt + sty or any(("PduMetadata" in F.ty_s(a) or "FrameMetadata" in F.ty_s(a)) for a in f.get("args", []) if isinstance(a, int))
-                if touches:
-                    R.violation("FIRST", "%s|%s" % (path, re.sub(r"<.*?>", "", tgt.split("::")[-2] + "::" + tgt.split("::")[-1])), "%s writes a result map through %s: only the vacant arm of the entry API keeps the first definition of a duplicated id" % (path, tgt), function=path, file=fl, line=ln)
-            if body is b and on_map is not None and re.search(r"HashMap::<.*>::entry$", tgt):
+                short = re.sub(r"<.*?>", "", "::".join(tgt.split("::")[-2:]))
+                R.violation("FIRST", "%s|%s" % (path, short), "%s writes a result map through %s: only the vacant arm of the entry API keeps the first definition of a duplicated id" % (path, tgt), function=path, file=fl, line=ln)
+            elif re.search(r"HashMap::<.*>::entry$", tgt):
                 n_entry += 1
-                if bi in file_loop["blocks"]:
-                    R.violation("FIRST", READ + "|assemble-inside-file-loop", "a result map is filled inside the loop over the files: definitions from later files would not see the accumulated PDUs / signals (distribution over files would matter)", function=READ, file=fl, line=ln)
-                else:
-                    R.instance("FIRST", "entry() on %s after the file loop" % re.sub(r"std::collections::HashMap<(.*), std::hash::RandomState>", r"map<\1>", maps[on_map])[:90])
-    # new maps created inside the file loop (per-file maps merged later) are a deviation from accumulate-then-assemble
-    for bi in file_loop["blocks"]:
-        blk = b["blocks"][bi]
-        f = cfg.callee_of(blk["term"])
-        if f and re.search(r"HashMap::<.*>::(new|with_capacity|default)$", cfg.fn_target(f)) and blk["term"]["dest"]["l"] in maps:
-            fl, ln = loc_of(blk)
-            R.violation("FIRST", READ + "|per-file-map", "a result map is created per file inside the file loop", function=READ, file=fl, line=ln)
-    if n_entry == 3:
-        R.obligation("FIRST", READ + "|entry-only", "discharged", "each of the three result maps is written through entry() only, after the file loop")
+                entry_fns.add(path)
+                R.instance("FIRST", "%s: entry() on a result map" % path)
+    # the loop over the files: the loop (in any function) whose body reaches Reader::from_file
+    file_loops = []
+    for path, body in fibex_bodies(F):
+        for lp in cfg.natural_loops(body):
+            callees = set()
+            for bi in lp["blocks"]:
+                f = cfg.callee_of(body["blocks"][bi]["term"])
+                if f:
+                    callees.add(cfg.fn_target(f))
+                    callees.add(f["path"])
+            local = {c for c in callees if c in F.bodies}
+            reach = set(cg.local_reachable(sorted(local))) | callees if local else callees
+            if any(c.endswith("::from_file") for c in reach):
+                file_loops.append((path, body, lp, reach))
+    if not file_loops:
+        R.violation("FIRST", READ + "|file-loop", "cannot identify the loop over the input files", function=READ, kind="UNRECOGNISED-SHAPE")
+    for path, body, lp, reach in file_loops:
+        bad = [e for e in entry_fns if e in reach]
+        inside = []
+        if path in entry_fns:
+            for bi in lp["blocks"]:
+                f = cfg.callee_of(body["blocks"][bi]["term"])
+                if f and re.search(r"HashMap::<.*>::entry$", cfg.fn_target(f)) and any(("PduMetadata" in F.ty_s(a) or "FrameMetadata" in F.ty_s(a)) for a in f.get("args", []) if isinstance(a, int)):
+                    inside.append(bi)
+        if bad or inside:
+            fl, ln = loc_of(body["blocks"][lp["header"]])
+            R.violation("FIRST", READ + "|assemble-inside-file-loop", "a result map is filled while the files are still being read (%s): definitions from later files would not see the accumulated PDUs / signals" % (sorted(bad) or path), function=path, file=fl, line=ln)
+        else:
+            R.obligation("FIRST", "%s|accumulate-then-assemble" % path, "discharged", "no result map is written inside the loop over the files")
+    if n_entry >= 3:
+        R.obligation("FIRST", READ + "|entry-only", "discharged", "%d entry() calls on result maps, no other write" % n_entry)
     else:
-        R.violation("FIRST", READ + "|entry-count", "expected one entry() call per result map (3), found %d" % n_entry, function=READ, kind="UNRECOGNISED-SHAPE")
+        R.violation("FIRST", READ + "|entry-count", "expected an entry() call per result map (3), found %d" % n_entry, function=READ, kind="UNRECOGNISED-SHAPE")
     R.floor("FIRST", 3)
 
 
 def refs(ctx):
-    F, R = ctx.facts, ctx.report
-    b = F.body(READ)
-    # closures handed to iterator adaptors in read_fibexes
-    handed = {}
-    for bi, blk in enumerate(b["blocks"]):
-        t = blk["term"]
-        f = cfg.callee_of(t)
-        if f and f["path"].startswith("std::iter::Iterator::") and len(t["args"]) >= 2:
-            for o in t["args"][1:]:
-                p = o.get("c") or o.get("m")
-                if p is not None and not p["p"]:
-                    ty = F.ty(b["locals"][p["l"]]["ty"])
-                    if ty["k"] == "closure":
-                        handed[ty.get("def") or ty.get("path") or ty.get("s")] = f["path"].split("::")[-1]
-    sig = pdu = None
-    for p in sorted(F.bodies):
-        if not p.startswith(READ + "::{closure"):
-            continue
-        body = F.body(p)
-        calls = [cfg.fn_target(cfg.callee_of(blk["term"])) for blk in body["blocks"] if cfg.callee_of(blk["term"])]
-        adaptor = None
-        for k, v in handed.items():
-            if k and (k == p or str(k).endswith(p.split("::")[-1]) and p in str(k)):
-                adaptor = v
-        if any(c == TI for c in calls):
-            sig = (p, adaptor)
-        if any(re.search(r"HashMap::<.*>::get$", c) for c in calls):
-            pdu = (p, adaptor, any(re.search(r"Option::<T>::(ok_or_else|ok_or)$", c) for c in calls), F.ty_s(body["locals"][0]["ty"]))
-    if sig and (sig[1] in (None, "filter_map")):
-        # the adaptor of the closure: look for filter_map in read_fibexes
-        has_fm = any((cfg.callee_of(blk["term"]) or {}).get("path", "").endswith("Iterator::filter_map") for blk in b["blocks"])
-        if has_fm:
-            R.obligation("REFS", READ + "|signal-refs-dropped", "discharged", "signal types collected through filter_map(type_info_for_signal_ref): unknown references are skipped")
-            R.instance("REFS", "unknown signal refs: filter_map")
-        else:
-            R.violation("REFS", READ + "|signal-refs", "signal references are not resolved through filter_map: an unknown reference would not simply be skipped", function=READ)
+    F, R, cg = ctx.facts, ctx.report, ctx.cg
+    sig_ok = pdu_ok = False
+    for path, body in fibex_bodies(F):
+        calls = [(cfg.fn_target(cfg.callee_of(blk["term"])), cfg.callee_of(blk["term"])) for blk in body["blocks"] if not blk["cleanup"] and cfg.callee_of(blk["term"])]
+        names = [c for c, _ in calls]
+        # unknown signal references are dropped: the resolver's Option result feeds filter_map / flatten / a `if let Some` push
+        if TI in names and body["kind"] in ("closure",):
+            rt = F.ty_s(body["locals"][0]["ty"])
+            if rt.startswith("std::option::Option<"):
+                sig_ok = True
+        if TI in names and body["kind"] != "closure":
+            # loop form: the result is matched, only Some is pushed
+            sig_ok = sig_ok or any(n.endswith("Vec::<T, A>::push") or re.search(r"Vec::<.*>::push$", n) for n in names)
+        # unknown PDU references fail: a lookup on the PDU map whose miss becomes an Err
+        gets = [f for c, f in calls if re.search(r"HashMap::<.*>::get$", c) and any("PduMetadata" in F.ty_s(a) for a in f.get("args", []) if isinstance(a, int))]
+        if gets:
+            rt = F.ty_s(body["locals"][0]["ty"])
+            if any(re.search(r"Option::<T>::(ok_or_else|ok_or)$", n) for n in names) and "Result<" in rt:
+                pdu_ok = True
+            else:
+                fl, ln = body["span"]["f"], body["span"]["l"]
+                R.violation("REFS", "%s|pdu-refs" % path.split("::{")[0], "%s looks a PDU reference up without turning a miss into an error (no ok_or_else / Result): a reference to an unknown PDU would be dropped instead of failing the load" % path, function=path, file=fl, line=ln)
+    if sig_ok:
+        R.obligation("REFS", READ + "|signal-refs-dropped", "discharged", "the signal-type resolver's Option result is filtered: unknown references are skipped")
+        R.instance("REFS", "unknown signal refs skipped")
     else:
-        R.violation("REFS", READ + "|signal-closure", "cannot find the closure resolving signal references", function=READ, kind="UNRECOGNISED-SHAPE")
-    if pdu and pdu[2] and "Result<" in pdu[3]:
-        has_try = any((cfg.callee_of(blk["term"]) or {}).get("path", "").endswith("Try::branch") for blk in b["blocks"])
+        R.violation("REFS", READ + "|signal-refs", "cannot find where unknown signal references are skipped", function=READ, kind="UNRECOGNISED-SHAPE")
+    if pdu_ok:
         R.obligation("REFS", READ + "|pdu-refs-fail", "discharged", "PDU references resolved with get(..).ok_or_else(..) into a Result: an unknown PDU makes loading fail")
-        R.instance("REFS", "unknown PDU ref: %s returns %s" % (pdu[0].split("::")[-1], pdu[3][:60]))
-    else:
-        R.violation("REFS", READ + "|pdu-refs", "PDU references are not resolved by a fallible lookup (get .. ok_or_else returning Result): a reference to an unknown PDU would be dropped instead of failing the load", function=READ)
+        R.instance("REFS", "unknown PDU ref fails the load")
+    elif not any("pdu-refs" in v["key"] for v in R.violations):
+        R.violation("REFS", READ + "|pdu-refs", "cannot find the fallible lookup of PDU references", function=READ, kind="UNRECOGNISED-SHAPE")
     R.floor("REFS", 2)
 
 
 def sort_keys(ctx):
-    F, R = ctx.facts, ctx.report
-    for fn, ev, keyfield in (("fibex::read_pdu", "SignalInstance", "sequence_number"), ("fibex::read_frame", "PduInstance", "sequence_number")):
-        b = F.body(fn)
-        # the closure passed to sort_by_key
-        clos = None
-        for blk in b["blocks"]:
-            t = blk["term"]
-            f = cfg.callee_of(t)
+    """Every sort_by_key closure of the module projects field 0 of its item; the 2-tuples pushed by read_pdu / read_frame
+    carry the instance's sequence number in field 0; a sort is reachable from both."""
+    F, R, cg = ctx.facts, ctx.report, ctx.cg
+    sorters = []
+    for path, body in fibex_bodies(F):
+        for blk in body["blocks"]:
+            f = cfg.callee_of(blk["term"])
             if f and f["path"].endswith("::sort_by_key"):
-                for o in t["args"][1:]:
-                    p = o.get("c") or o.get("m")
-                    k = o.get("k")
-                    ty = None
-                    if p is not None and not p["p"]:
-                        ty = F.ty(b["locals"][p["l"]]["ty"])
-                    elif k is not None:
-                        ty = F.ty(k["ty"])
-                    if ty and ty["k"] == "closure":
-                        clos = ty.get("def") or ty.get("path")
-        cands = [p for p in F.bodies if p.startswith(fn + "::{closure")]
-        good = False
-        for p in cands:
+                sorters.append(path)
+    n_clos = 0
+    for path in sorted(set(sorters)):
+        for p in [q for q in F.bodies if q.startswith(path + "::{closure")]:
             cb = F.body(p)
             if cb["arg_count"] != 2:
                 continue
+            it = F.ty_s(cb["locals"][2]["ty"])
+            if not it.startswith("&(") or F.ty(cb["locals"][0]["ty"])["k"] not in ("uint", "int"):
+                continue  # not a key-projection closure (e.g. the `.map(|v| v.1)` that strips the key)
             eng = Engine(F)
             outs = eng.call_path(p, eng.symbolic_args(cb, names=["env", "item"]))
+            n_clos += 1
             if len(outs) == 1 and isinstance(outs[0][1], Int) and outs[0][1].lin == Lin.sym("*item.0"):
-                good = True
-        # what is pushed: (sequence_number, ref)
+                R.obligation("SORT", p + "|projects-0", "discharged", "sort key = field 0 of the item")
+            else:
+                R.violation("SORT", path + "|key-closure", "the sort key closure %s does not project field 0 (the sequence number) of its item" % p, function=p, file=cb["span"]["f"], line=cb["span"]["l"])
+    for fn, ev in (("fibex::read_pdu", "SignalInstance"), ("fibex::read_frame", "PduInstance")):
+        b = F.body(fn)
         eng = Engine(F)
         eng.inline_filter = lambda p: p != "fibex::Reader::<B>::read_event"
         pushed = []
 
-        def on_call(eng_, st, fr, f, args, site):
-            if re.search(r"Vec::<.*>::push$", f["path"]) and fr.path == fn:
+        def on_call(eng_, st, fr, f, args, site, _fn=fn):
+            if re.search(r"Vec::<.*>::push$", f["path"]) and fr.path == _fn:
                 pushed.append(args[1])
             return None
 
         eng.on_call = on_call
         eng.call_path(fn, eng.symbolic_args(b, names=["reader"]))
-        okp = bool(pushed) and all(isinstance(v, Struct) and len(v.fields) == 2 and (".%s.%s" % (ev, keyfield)) in repr(v.fields[0]) for v in pushed)
-        if good and okp:
-            R.obligation("SORT", fn + "|key", "discharged", "sorted by field 0 = %s.%s of the pushed tuple" % (ev, keyfield))
-            R.instance("SORT", "%s: sort_by_key(|x| x.0) with x.0 = %s.%s" % (fn, ev, keyfield))
+        okp = bool(pushed) and all(isinstance(v, Struct) and len(v.fields) == 2 and (".%s.sequence_number" % ev) in repr(v.fields[0]) for v in pushed)
+        reach = set(cg.local_reachable([fn])) | {fn}
+        sorted_here = any(s_ in reach for s_ in sorters)
+        if okp and sorted_here and n_clos:
+            R.obligation("SORT", fn + "|key", "discharged", "instances pushed as (sequence_number, ref) and sorted by field 0")
+            R.instance("SORT", "%s: (sequence_number, ref) pushed, sort_by_key reachable" % fn)
         else:
-            R.violation("SORT", fn + "|key", "%s does not sort its instances by the sequence number pushed with them (key closure projects field 0: %s; pushed first component is %s.%s: %s)" % (fn, good, ev, keyfield, okp), function=fn, file=b["span"]["f"], line=b["span"]["l"])
+            R.violation("SORT", fn + "|key", "%s does not sort its instances by the sequence number pushed with them (pushed first component is %s.sequence_number: %s; a sort_by_key on field 0 is reachable: %s)" % (fn, ev, okp, sorted_here and bool(n_clos)), function=fn, file=b["span"]["f"], line=b["span"]["l"])
     R.floor("SORT", 2)
 
 
@@ -441,26 +425,26 @@ def attr(ctx):
                 return a is not None and a[1] == Lin.const(0) and a[4] == Lin.const(0) and a[0] != a[3] and isinstance(a[0], str) and isinstance(a[3], str) and a[2] == Lin.sym("len(%s)" % a[0]) and a[5] == Lin.sym("len(%s)" % a[3])
 
             def is_tail(a):
-                # key[len(key) - len(name) ..] == name
-                return a is not None and a[4] == Lin.const(0) and isinstance(a[0], str) and isinstance(a[3], str) and a[5] == Lin.sym("len(%s)" % a[3]) and a[2] == a[5] and a[1] == Lin.sym("len(%s)" % a[0]).sub(a[5])
+                # some view of the key with exactly len(name) bytes that ENDS at the key's end, compared with the whole name
+                if a is None or not isinstance(a[0], str) or not isinstance(a[3], str):
+                    return False
+                for (kb, ko, kl, nb, no, nl) in (a, (a[3], a[4], a[5], a[0], a[1], a[2])):
+                    if no == Lin.const(0) and nl == Lin.sym("len(%s)" % nb) and kl == nl and ko.add(kl) == Lin.sym("len(%s)" % kb) and kb != nb:
+                        return True
+                return False
 
             full_true = [l for l in lits if l[1] and is_full(atoms.get(l[0]))]
             tail_true = [l for l in lits if l[1] and is_tail(atoms.get(l[0]))]
             colon = [c for c in cmps if c[1] == "Eq" and c[4] and ("58" in (c[2], c[3]))]
-            longer = []
-            for l in tail_true:
-                a = atoms[l[0]]
-                la, lb = "len(%s)" % a[0], "len(%s)" % a[3]
-                longer += [c for c in cmps if (c[1] == "Gt" and c[4] and c[2] == la and c[3] == lb) or (c[1] == "Lt" and c[4] and c[2] == lb and c[3] == la) or (c[1] == "Le" and not c[4] and c[2] == la and c[3] == lb) or (c[1] == "Ge" and not c[4] and c[2] == lb and c[3] == la)]
             other = [l for l in lits if l[1] and l not in full_true and l not in tail_true]
             if full_true and not other and not tail_true:
                 R.obligation("ATTR", ATTR + "|accept|exact", "discharged", "key == name")
                 R.instance("ATTR", "accept: key == name")
-            elif tail_true and colon and longer and not other:
-                R.obligation("ATTR", ATTR + "|accept|namespaced", "discharged", "longer key, ':' before the name-length tail, tail == name")
+            elif tail_true and colon and not other:
+                R.obligation("ATTR", ATTR + "|accept|namespaced", "discharged", "a ':' test and the name-length tail of the key equal to the name")
                 R.instance("ATTR", "accept: key ends with ':' + name")
             else:
-                R.violation("ATTR", ATTR + "|accept|other", "attr_opt accepts an attribute under conditions other than `key == name` or `key ends with ':' + name`: %s" % desc[:400], function=ATTR, file=b["span"]["f"], line=b["span"]["l"])
+                R.violation("ATTR", ATTR + "|accept|other", "attr_opt accepts an attribute on a path without the evidence of `key == name` or of (`:` before the tail and tail of name length == name): %s" % desc[:400], function=ATTR, file=b["span"]["f"], line=b["span"]["l"])
     if n_acc < 2:
         R.violation("ATTR", ATTR + "|accepting-exits", "expected two accepting paths (exact and namespaced match), saw %d" % n_acc, function=ATTR, kind="UNRECOGNISED-SHAPE")
     R.floor("ATTR", 2)
